@@ -450,12 +450,9 @@ func checkCase(c Case, rec *evid.Rec) error {
 	if !isHang {
 		return err
 	}
-	// a wait expired: deadlock only if it reproduces twice more with every driver goroutine parked
+	// a 20 s wait expired: a violation only if the same schedule hangs twice more (three in a row);
+	// all driver goroutines parked = deadlock, otherwise the driver / search is busy but unresponsive
 	_, parked, _ := uciGoroutines()
-	if !parked {
-		fmt.Println("INFRA-ERROR wait expired with runnable driver goroutines (machine too slow?):", h.what)
-		os.Exit(2)
-	}
 	for i := 0; i < 2; i++ {
 		e2 := runCase(c, nil)
 		if _, again := e2.(*hangErr); !again {
@@ -463,7 +460,11 @@ func checkCase(c Case, rec *evid.Rec) error {
 			os.Exit(2)
 		}
 	}
-	return fmt.Errorf("deadlock (reproduced three times, all driver goroutines parked): %s\n%s", h.what, h.dump)
+	kind := "unresponsive (driver goroutines still running)"
+	if parked {
+		kind = "deadlock (all driver goroutines parked)"
+	}
+	return fmt.Errorf("%s, reproduced three times in a row: %s\n%s", kind, h.what, h.dump)
 }
 
 // ---- generators ----
@@ -578,8 +579,29 @@ func mockRound(t *rapid.T, ponderOn bool) (evs []Ev, ends bool) {
 	return
 }
 
-func realRound(t *rapid.T) (evs []Ev, ends bool) {
+func realRound(t *rapid.T, ponderOn bool) (evs []Ev, ends bool) {
 	evs = append(evs, Ev{K: "send", Arg: positions[gen.Draw(t, 0, len(positions)-1, "pos")]})
+	if ponderOn && gen.Chance(t, 1, 2, "ponder") {
+		// a ponder search ignores its limits until ponderhit; it ends on stop (or on its limits after ponderhit)
+		args := []string{"ponder nodes 1000", "ponder nodes 1", "ponder depth 2", "ponder wtime 50 btime 50", "ponder nodes 5000 depth 4", "ponder movetime 10"}[gen.Draw(t, 0, 5, "pgo")]
+		evs = append(evs, Ev{K: "go", Arg: args}, Ev{K: "sleep", N: gen.Draw(t, 0, 3000, "us")})
+		if gen.Chance(t, 1, 3, "isready") {
+			evs = append(evs, Ev{K: "send", Arg: "isready"})
+		}
+		switch gen.Draw(t, 0, 3, "pend") {
+		case 0:
+			evs = append(evs, Ev{K: "send", Arg: "ponderhit"}, Ev{K: "sleep", N: gen.Draw(t, 0, 2000, "us2")}, Ev{K: "send", Arg: "stop"})
+		case 1:
+			evs = append(evs, Ev{K: "send", Arg: "ponderhit"})
+			if strings.Contains(args, "depth 2") {
+				evs = append(evs, Ev{K: "sleep", N: 2000}, Ev{K: "send", Arg: "stop"})
+			}
+		default:
+			evs = append(evs, Ev{K: "send", Arg: "stop"})
+		}
+		evs = append(evs, Ev{K: "waitbest"})
+		return
+	}
 	args := []string{"depth 4", "nodes 3000", "depth 6 nodes 20000", "movetime 5", "wtime 40 btime 40", "nodes 1", "depth 1", "infinite", "depth 8"}[gen.Draw(t, 0, 8, "go")]
 	evs = append(evs, Ev{K: "go", Arg: args})
 	n := gen.Draw(t, 0, 4, "during")
@@ -666,7 +688,7 @@ func sweep(rec *evid.Rec) bool {
 func TestC13(t *testing.T) {
 	_ = srch.MaskTime
 	evid.Main(t, "C13", func(rec *evid.Rec) {
-		rec.Rule("in-process uci.Driver on pipes, race detector on. Controllable mock search (announces start, emits info lines and finishes on command, on stop, or never): systematic sweep command {isready, stop, quit, end of input, ponderhit} x phase {before the search started, right after start, after two info lines, coincident with the finish signal in three orders, after bestmove}, repeated; rapid grammar-generated conforming sessions (uci/isready/setoption/debug/ucinewgame preamble, 1..5 rounds of position + go {infinite, depth, nodes, clocks, movetime, tiny clocks, ponder} with drawn commands at drawn phases, ending by finish / stop / coincident command / quit / end of input / hard timer). Real search with small limits and drawn microsecond delays before isready/stop/quit. Transcript oracle: every line matches the line grammar (no torn lines); one bestmove per go, after all info lines of that search and none of a later search before it; readyok k never before isready k, totals equal; Run returns after quit / end of input; afterwards no goroutine has a driver frame; no panic; race detector silent. Waits have a 20 s ceiling: expiry with all driver goroutines parked, reproduced three times = deadlock; otherwise inconclusive (exit 2). Non-trivial = a command delivered while a search was in flight or coincident with its end; distinct by schedule")
+		rec.Rule("in-process uci.Driver on pipes, race detector on. Controllable mock search (announces start, emits info lines and finishes on command, on stop, or never): systematic sweep command {isready, stop, quit, end of input, ponderhit} x phase {before the search started, right after start, after two info lines, coincident with the finish signal in three orders, after bestmove}, repeated; rapid grammar-generated conforming sessions (uci/isready/setoption/debug/ucinewgame preamble, 1..5 rounds of position + go {infinite, depth, nodes, clocks, movetime, tiny clocks, ponder} with drawn commands at drawn phases, ending by finish / stop / coincident command / quit / end of input / hard timer). Real search with small limits and drawn microsecond delays before isready/stop/quit. Transcript oracle: every line matches the line grammar (no torn lines); one bestmove per go, after all info lines of that search and none of a later search before it; readyok k never before isready k, totals equal; Run returns after quit / end of input; afterwards no goroutine has a driver frame; no panic; race detector silent. Waits have a 20 s ceiling: a schedule whose wait expires three times in a row is a violation (deadlock if all driver goroutines are parked, unresponsive otherwise); an expiry that does not reproduce is inconclusive (exit 2). Non-trivial = a command delivered while a search was in flight or coincident with its end; distinct by schedule")
 		rec.Assume("the Go scheduler is not under harness control: interleavings inside the driver are sampled (repetition, GOMAXPROCS variation across shards, race detector), not enumerated")
 		rec.Note("GOMAXPROCS=%d", runtime.GOMAXPROCS(0))
 		if !sweep(rec) {
@@ -697,9 +719,13 @@ func TestC13(t *testing.T) {
 		})
 		rec.Rapid(t, "real_session", evid.Pick(2000, 30000), func(t *rapid.T) {
 			c := Case{Evs: preamble(t)}
+			ponderOn := gen.Chance(t, 1, 2, "ponderOpt")
+			if ponderOn {
+				c.Evs = append(c.Evs, Ev{K: "send", Arg: "setoption name Ponder value true"})
+			}
 			rounds := gen.Draw(t, 1, 3, "rounds")
 			for i := 0; i < rounds; i++ {
-				evs, ends := realRound(t)
+				evs, ends := realRound(t, ponderOn)
 				c.Evs = append(c.Evs, evs...)
 				if ends {
 					break
